@@ -971,3 +971,35 @@ Lemma not_a_circuit_reported : forall s sid v, issue s sid (AKNotCirc v) = (s, [
 Proof. reflexivity. Qed.
 Lemma not_a_circuit_invalid : forall tt v, decide tt (AKNotCirc v) = DInvalid.
 Proof. reflexivity. Qed.
+
+(* a late answer (OFire) is judged against the circuits known WHEN IT ARRIVES: in every reachable state the
+   decision is Spec.decide on the current objects, including circuits created after the consultation *)
+Lemma late_answer_current : forall ops n p,
+  let s := snd (run_from st0 ops) in
+  nth_error (pends s) n = Some p -> p_fired p = false -> lookup 9000 (circs s) = None ->
+  op_fire s n =
+    realise (with_pends s (set_nth n {| p_sid := p_sid p; p_kind := p_kind p; p_fired := true |} (pends s)))
+            (p_sid p) (decide_now s (p_kind p)).
+Proof.
+  intros ops n p s E F L. unfold op_fire. rewrite E, F.
+  pose proof (reachable_cinv ops st0 cinv0) as [BK _]. fold s in BK.
+  exact (issue_realises (with_pends s _) (p_sid p) (p_kind p) BK L).
+Qed.
+
+(* the attacher is consulted, a circuit is built meanwhile, the late answer names it: ATTACHSTREAM to it;
+   and a circuit that existed at consultation but closed before the answer: reported, nothing sent *)
+Definition w_built_meanwhile : list op :=
+  [OSetAtt (Some (AttCustom 0)); OReply true;
+   OStream 7 SNew 0 (str "example.com") 80 SrcNone [{| a_kind := AKCirc 0; a_mode := MLater |}];
+   OCirc 4 CLaunched; OCirc 4 CExtended; OCirc 4 CBuilt; OFire 0; OFlush].
+Definition w_closed_meanwhile : list op :=
+  [OCirc 4 CBuilt; OSetAtt (Some (AttCustom 0)); OReply true;
+   OStream 7 SNew 0 (str "example.com") 80 SrcNone [{| a_kind := AKCirc 0; a_mode := MLater |}];
+   OCirc 4 CClosed; OFire 0; OFlush].
+Lemma built_meanwhile_ok : wf w_built_meanwhile = true /\ oracle w_built_meanwhile (run w_built_meanwhile) = true /\
+  all_writes (run w_built_meanwhile) = [leave_line 1; attach_line 7 4].
+Proof. vm_compute. auto. Qed.
+Lemma closed_meanwhile_ok : wf w_closed_meanwhile = true /\ oracle w_closed_meanwhile (run w_closed_meanwhile) = true /\
+  all_writes (run w_closed_meanwhile) = [leave_line 1] /\
+  n_reported (List.concat (run w_closed_meanwhile)) = 1%nat.
+Proof. vm_compute. auto. Qed.
